@@ -285,7 +285,14 @@ func (d *c04NJTwin) InitDefaults() { *d = -7 }
 type catInfo struct {
 	initDefaults bool
 	valid        func(v reflect.Value) bool // nil: no Validate method
+	ptrRecv      bool                       // Validate() is declared on the pointer receiver (set by register)
+	under        string                     // underlying kind: int, uint, float, string, bool, slice, array, map, struct (set by register)
 }
+
+var (
+	validatorIface = reflect.TypeOf((*interface{ Validate() error })(nil)).Elem()
+	initIface      = reflect.TypeOf((*interface{ InitDefaults() })(nil)).Elem()
+)
 
 var cats = map[string]catInfo{}
 
@@ -326,6 +333,26 @@ func register(name string, real, twin interface{}, shape *gen.TD, info catInfo) 
 				panic("c04: catalogue shape out of date: " + name + "." + f.Name)
 			}
 		}
+	}
+	// the oracle's description must agree with the method sets of the hand-written types
+	hasV := rt.Implements(validatorIface) || reflect.PtrTo(rt).Implements(validatorIface)
+	if hasV != (info.valid != nil) || tt.Implements(validatorIface) || reflect.PtrTo(tt).Implements(validatorIface) {
+		panic("c04: catalogue description out of date (Validate): " + name)
+	}
+	hasI := func(t reflect.Type) bool { return t.Implements(initIface) || reflect.PtrTo(t).Implements(initIface) }
+	if hasI(rt) != info.initDefaults || hasI(tt) != info.initDefaults {
+		panic("c04: catalogue description out of date (InitDefaults): " + name)
+	}
+	info.ptrRecv = hasV && !rt.Implements(validatorIface)
+	switch k := rt.Kind(); {
+	case k >= reflect.Int && k <= reflect.Int64:
+		info.under = "int"
+	case k >= reflect.Uint && k <= reflect.Uint64:
+		info.under = "uint"
+	case k == reflect.Float32 || k == reflect.Float64:
+		info.under = "float"
+	default:
+		info.under = k.String()
 	}
 	gen.RegisterCat(name, rt, shape)
 	gen.RegisterCat(name+"_twin", tt, twinOf(stripShape(shape)))
